@@ -18,6 +18,7 @@ class LoopAnn:
     """loop annotation: invariant(view, i) [, variant(view)] for loop #ordinal of a function"""
     def __init__(self, name, invariant, variant=None, keep=(), after_break=None, elem=None, entry=None):
         self.name, self.invariant, self.variant, self.keep, self.after_break = name, invariant, variant, keep, after_break
+        self.havoc = None                # havoc(view): extra python-level havoc of state the static analysis cannot type (set after construction)
         self.entry = entry               # entry(view) -> dict of ghost values captured at loop entry, visible as view.<name>
         self.elem = dict(elem or {})     # element type of lists that are empty at loop entry: {'bits': 'bool'}
 
